@@ -22,6 +22,11 @@ mod c12;
 mod spy_vdaf;
 mod c13;
 mod c14;
+mod c15;
+mod c15_explore;
+mod c15_model;
+mod c15_noise;
+mod c15_real;
 mod c16;
 mod c17;
 mod c18;
@@ -56,6 +61,7 @@ fn main() {
         "C12" => c12::run(&mut ctx),
         "C13" => c13::run(&mut ctx),
         "C14" => c14::run(&mut ctx),
+        "C15" => c15::run(&mut ctx),
         "C16" => c16::run(&mut ctx),
         "C17" => c17::run(&mut ctx),
         "C18" => c18::run(&mut ctx),
